@@ -348,6 +348,26 @@ static Verdict runVariablePart(const Case& c, Info& info)
         VF_CHECK(q.getVendorDataLength() == vendor.size(), "vendor data length read back as " << q.getVendorDataLength() << ", the bytes say " << vendor.size());
         VF_CHECK(vendor.empty() || (q.getVendorData() && memcmp(q.getVendorData(), vendor.data(), vendor.size()) == 0), "vendor data read back differs");
         VF_CHECK(q.getVendorDataStringView().size() == vendor.size(), "vendor data string view length " << q.getVendorDataStringView().size());
+        {
+            // the same object then receives (copy assignment: the storage is re-used) another layout of exactly the same total size -
+            // the four string lengths rotated by one - and must read back what those bytes say
+            std::string rot[4];
+            for (int i = 0; i < 4; ++i)
+                rot[i] = fillString(c.seed + 40 + static_cast<uint32_t>(i), str[(i + 1) % 4].size());
+            Bytes expect2 = wire::buildCm(f, rot[0], rot[1], rot[2], rot[3], vendor);
+            if (expect2.size() == expect.size() && expect2 != expect)
+            {
+                lib::CaptureModulePayload q2(expect2.data(), expect2.size());
+                q = q2;
+                VF_CHECK(std::string(q.getDeviceDescription()) == rot[0] && std::string(q.getSerialNumber()) == rot[1] &&
+                             std::string(q.getHardwareVersion()) == rot[2] && std::string(q.getSoftwareVersion()) == rot[3],
+                         "after the object received other bytes of the same total size (string lengths " << rot[0].size() << "," << rot[1].size() << "," << rot[2].size()
+                                                                                                          << "," << rot[3].size() << ") the strings read back differ from what the bytes say");
+                VF_CHECK(q.getVendorDataLength() == vendor.size() && (vendor.empty() || memcmp(q.getVendorData(), vendor.data(), vendor.size()) == 0),
+                         "after the object received other bytes of the same total size the vendor data read back differs");
+                info.tag("same_object_receives_another_layout_of_the_same_size");
+            }
+        }
         for (int i = 0; i < 4; ++i)
             if (((str[i].size() + 1 + ((str[i].size() + 1) % 2)) & 0x80))
                 prefixLowByteHigh = true;
@@ -389,6 +409,22 @@ static Verdict runVariablePart(const Case& c, Info& info)
         VF_CHECK(q.getVendorDataLength() == vendor.size(), "vendor data length read back as " << q.getVendorDataLength() << ", the bytes say " << vendor.size());
         VF_CHECK(ids.empty() || (q.getStreamIds() && memcmp(q.getStreamIds(), ids.data(), ids.size()) == 0), "stream ids read back differ");
         VF_CHECK(vendor.empty() || (q.getVendorData() && memcmp(q.getVendorData(), vendor.data(), vendor.size()) == 0), "vendor data read back differs");
+        {
+            // same object, other bytes of the same total size: stream-id count and vendor length exchanged
+            Bytes ids2 = fillBytes(c.seed ^ 0x31, vendor.size()), vendor2 = fillBytes(c.seed ^ 0x32, ids.size());
+            Bytes expect2 = wire::buildIf(f, ids2, vendor2);
+            if (expect2.size() == expect.size() && ids.size() != vendor.size())
+            {
+                lib::InterfacePayload q2(expect2.data(), expect2.size());
+                q = q2;
+                VF_CHECK(q.getStreamIdsCount() == ids2.size() && q.getVendorDataLength() == vendor2.size(),
+                         "after the object received other bytes of the same total size: stream id count " << q.getStreamIdsCount() << " / vendor length " << q.getVendorDataLength()
+                                                                                                           << ", the bytes say " << ids2.size() << " / " << vendor2.size());
+                VF_CHECK(ids2.empty() || memcmp(q.getStreamIds(), ids2.data(), ids2.size()) == 0, "after the object received other bytes of the same size the stream ids read back differ");
+                VF_CHECK(vendor2.empty() || memcmp(q.getVendorData(), vendor2.data(), vendor2.size()) == 0, "after the object received other bytes of the same size the vendor data read back differs");
+                info.tag("same_object_receives_another_layout_of_the_same_size");
+            }
+        }
         if ((ids.size() & 0x80) || (vendor.size() & 0x80))
             prefixLowByteHigh = true;
         info.tag("variable_part_interface");
